@@ -83,6 +83,18 @@ Theorem C06_oldest_message_is_delivered :
                 chunk (r_datr (rx_radio rx)) (m_data m)).
 Proof. exact queued_message_is_transmitted. Qed.
 
+From Lospan Require Import Model.Steps Proof.CommuteProof.
+(* isolation under concurrency: atomic operations performed for different devices commute (same answers, same
+   emissions, same state of every device in either order), so interleavings of handlers of different devices reduce to
+   the per-device runs the other theorems speak about *)
+Theorem C06_operations_of_different_devices_commute :
+  forall apps t e1 e2 o1 o2, e1 <> e2 ->
+    let a := gexec apps t e1 o1 in let ab := gexec apps (fst (fst a)) e2 o2 in
+    let b := gexec apps t e2 o2 in let ba := gexec apps (fst (fst b)) e1 o1 in
+    snd (fst a) = snd (fst ba) /\ snd a = snd ba /\ snd (fst ab) = snd (fst b) /\ snd ab = snd b /\
+    forall e, dt_get (fst (fst ab)) e = dt_get (fst (fst ba)) e.
+Proof. exact operations_of_different_devices_commute. Qed.
+
 Print Assumptions C06_oldest_first.
 Print Assumptions C06_loaded_entry.
 Print Assumptions C06_one_frame_per_uplink.
@@ -90,3 +102,4 @@ Print Assumptions C06_isolation.
 Print Assumptions C06_queue_after_uplink.
 Print Assumptions C06_delivered_bytes_are_the_queued_bytes.
 Print Assumptions C06_oldest_message_is_delivered.
+Print Assumptions C06_operations_of_different_devices_commute.
